@@ -463,7 +463,17 @@ def one(prog, rep, cls, comb):
                     val = scF.term(st.value, st) if cfg.enclosing_loops(st) else bs.term(st.value, st)
                     (ins if cfg.enclosing_loops(st) else fin).setdefault(st.targets[0].value.id, []).append((k, val, st))
             i = ("idx", lid, "enumerate")
-            okin = [x[:2] for x in ins.get(nx, [])] == [(i, V(0))] and [x[:2] for x in ins.get(ny, [])] == [(i, V(1))]
+            # component k of the (2, 1) vector: vector[k] (a one-element array) or vector[k, 0] (the number itself)
+            comp_ = lambda k: (V(k), ("sub", ("col", Lc(vname), ("const", 0)), ("const", k)))
+            unwrap_ = lambda t_: t_[2][0] if t_[0] == "call" and t_[1] in (G("float"), G("numpy.float64")) and len(t_[2]) == 1 and not t_[3] else t_
+            got = {nm: [(x[0], unwrap_(x[1])) for x in ins.get(nm, [])] for nm in (nx, ny)}
+            okin = len(got[nx]) == 1 and len(got[ny]) == 1 and got[nx][0][0] == i and got[ny][0][0] == i and got[nx][0][1] in comp_(0) and got[ny][0][1] in comp_(1)
+            # an element of a float array takes a number: a one-element ARRAY is converted only through a deprecated path
+            # (NumPy >= 1.25 DeprecationWarning "Conversion of an array with ndim > 0 to a scalar", an error under -W error)
+            arrs = [x[2] for nm in (nx, ny) for x in ins.get(nm, []) if x[1] in (V(0), V(1))]
+            rep.check(not arrs, "C04.close", f"{q}:numeric", fn.where(arrs[0]) if arrs else fn.where(), "the stored components are numbers",
+                      "a one-element array (vector[k] of the (2, 1) vector) is stored into an element of a float array: NumPy converts it through a deprecated path "
+                      "(DeprecationWarning on every AndContour, ValueError under -W error); store the number vector[k, 0] as OrContour does")
             okfin = [x[:2] for x in fin.get(nx, [])] == [(("const", -1), ("const", 0))] and [x[:2] for x in fin.get(ny, [])] == [(("const", -1), ("const", 0))]
             thetas_t = bf.term(F.iter, F)
             th = thetas_t[2][0] if thetas_t[0] == "call" and thetas_t[1] == G("enumerate") else None
